@@ -138,6 +138,8 @@ def cast(ex, kind, v, src, dst):
             return Opaque('addr')
         return v
     if kind in ('PointerExposeAddress', 'PointerExposeProvenance'):
+        if isinstance(v, AddrPtr):
+            return v.term          # the (arbitrary) address of a modelled allocation as a usize
         return Opaque('addr')
     if kind in ('IntToFloat', 'FloatToInt', 'FloatToFloat'):
         return Opaque('float')
@@ -1441,6 +1443,31 @@ def m_rc_deref(ex, n, a, f):
     return Ref(r.cell)
 
 
+class AddrPtr:
+    """raw pointer to a modelled heap allocation: only its ADDRESS can be observed - an arbitrary non-zero 64-bit value, the same
+    for the same allocation and different for different ones (nothing else is known about where an allocator places things)"""
+    __slots__ = ('term', 'cell')
+
+    def __init__(self, term, cell):
+        self.term, self.cell = term, cell
+
+
+@model(r'^std::rc::Rc::<.*>::as_ptr$')
+def m_rc_as_ptr(ex, n, a, f):
+    rc = a[0] if isinstance(a[0], RcV) else ex.deref(a[0])
+    if not isinstance(rc, RcV):
+        raise Unsupported(f"Rc::as_ptr of {rc!r}"[:100])
+    tab = ex.ghost.setdefault('alloc_addr', {})
+    ent = tab.get(id(rc.cell))
+    if ent is None:
+        t = z3.BitVec(f"addr{len(tab)}", 64)
+        ex.assume(t != 0)
+        for other, _ in tab.values():
+            ex.assume(t != other)
+        ent = tab[id(rc.cell)] = (t, rc.cell)     # the cell is kept alive so that its id is not reused
+    return AddrPtr(ent[0], rc.cell)
+
+
 @model(r'^std::rc::Rc::<.*>::new$')
 def m_rc_new(ex, n, a, f):
     return RcV(Cell(a[0]))
@@ -1561,12 +1588,46 @@ class HashMapV(BTreeMapV):
         return f"HashMap({len(self.entries)} entries)"
 
 
+class SymOrd:
+    """a symbolic ADDRESS inside the sort key of an ordered container: every comparison python makes while it keeps the container
+    sorted is a decision of the executor (the path forks into the possible orders)"""
+    __slots__ = ('ex', 'term')
+
+    def __init__(self, ex, term):
+        self.ex, self.term = ex, term
+
+    def _o(self, o):
+        return o.term if isinstance(o, SymOrd) else z3.BitVecVal(o, self.term.size())
+
+    def __eq__(self, o):
+        return self.ex.branch(self.term == self._o(o), 'ordered-container-address-eq')
+
+    def __ne__(self, o):
+        return not self.__eq__(o)
+
+    def __lt__(self, o):
+        return self.ex.branch(z3.ULT(self.term, self._o(o)), 'ordered-container-address-lt')
+
+    def __gt__(self, o):
+        return self.ex.branch(z3.UGT(self.term, self._o(o)), 'ordered-container-address-gt')
+
+    def __le__(self, o):
+        return not self.__gt__(o)
+
+    def __ge__(self, o):
+        return not self.__lt__(o)
+
+    __hash__ = None
+
+
 def sort_key(ex, k):
     k = ex.deref(k) if isinstance(k, Ref) else k
     if isinstance(k, bool):
         return (0, int(k))
     if isinstance(k, int):
         return (0, k)
+    if z3.is_bv(k) and 'addr' in str(k):
+        return (0, SymOrd(ex, k))
     if isinstance(k, (StringV, StrRef)):
         return (1, ''.join(map(chr, k.chars)).encode()) if is_conc_chars(k.chars) else _symkey()
     if isinstance(k, Tup):
